@@ -343,11 +343,12 @@ func (c *kvCase) run(nops int) {
 			c.st.Count("clone")
 		case op < 15 && len(c.handles) < 6: // open another handle (merging what is current)
 			ro := c.r.Chance(1, 3)
+			multi := len(c.currentRoots()) > 1 // before the open: a read-write open retires what it merges
 			if _, err := c.open(ro, nil); err != nil {
 				c.fail("open: " + err.Error())
 				return
 			}
-			if len(c.currentRoots()) > 1 {
+			if multi {
 				c.shapes["multi"] = true
 				// what the merge changed relative to every other handle (the writers it merged among them)
 				nh := c.handles[len(c.handles)-1]
